@@ -30,6 +30,7 @@ type Exec struct {
 	Notes  []string
 	lemmaAxioms []*Term
 	inst     string // type instance of a generic function under verification ("jsonNode")
+	derived  *Contract // "derived from": the source contract whose call stands for the body
 	measure0 []measureComp
 	NoTermination bool
 	prodSubj []*Val // closure producing a stream: the subjects (its YieldsArgs at entry)
